@@ -22,7 +22,7 @@ use crate::rng::mix;
 use std::alloc::{GlobalAlloc, Layout, System};
 use std::sync::atomic::{AtomicBool, AtomicUsize, Ordering};
 
-pub const ARENA_LEN: usize = 8 << 20;
+pub const ARENA_LEN: usize = 64 << 20;
 pub const RZ: usize = 32; // red zone either side of every block
 // Under Miri SimAlloc is compiled out; the (unused) state is kept tiny because
 // every `&mut` to it is retagged byte by byte by the borrow tracker.
@@ -293,7 +293,7 @@ struct State {
     counters: Counters,
     /// offsets (page index) of pages currently PROT_NONE.
     nguards: usize,
-    guards: [u32; 512],
+    guards: [u32; 2048],
     blocks: [Block; MAX_BLOCKS],
     events: [Event; MAX_EVENTS],
     flags: [Flag; MAX_FLAGS],
@@ -327,7 +327,7 @@ static mut ST: State = State {
         bytes: 0,
     },
     nguards: 0,
-    guards: [0; 512],
+    guards: [0; 2048],
     blocks: [B0; MAX_BLOCKS],
     events: [E0; MAX_EVENTS],
     flags: [F0; MAX_FLAGS],
@@ -349,6 +349,9 @@ extern "C" {
 /// injected failure (an unbounded retry loop): detected at the seam, reported
 /// by the parent as a hang without waiting for the watchdog.
 pub const EXIT_RETRY_STORM: i32 = 97;
+/// Exit code of a run that outgrew the simulator (arena or block table): a
+/// harness error (exit 2 of the check), never a verdict.
+pub const EXIT_HARNESS_LIMIT: i32 = 98;
 const RETRY_STORM_LIMIT: u64 = 200_000;
 const PROT_NONE: i32 = 0;
 const PROT_RW: i32 = 3;
@@ -379,6 +382,17 @@ fn canary_byte(off: usize) -> u8 {
 
 impl State {
     fn flag(&mut self, kind: FlagKind, b: Option<&Block>, off: u32, f: Option<Layout>) {
+        if kind == FlagKind::HarnessLimit && off >= 2 {
+            // The simulated heap itself is exhausted (arena, block table): this
+            // says nothing about the library. Never let it look like an
+            // allocation failure the library has to cope with.
+            unsafe {
+                let fd = OOM_FD.load(Ordering::Relaxed);
+                let msg = b"F harness-limit\n";
+                write(if fd >= 0 { fd } else { 2 }, msg.as_ptr(), msg.len());
+                _exit(EXIT_HARNESS_LIMIT);
+            }
+        }
         if self.nflags >= MAX_FLAGS {
             return;
         }
@@ -518,6 +532,9 @@ impl State {
                     _ => Placement::MinAlign,
                 },
                 Placement::ReuseLifo => Placement::MinAlign,
+                // out of guard slots: ordinary minimal-alignment placement
+                // (a page per block without a guard would only burn arena)
+                Placement::PageEnd if self.nguards >= self.guards.len() => Placement::MinAlign,
                 p => p,
             };
             off = match placement {
